@@ -312,7 +312,7 @@ def parts(ctx):
     max_len = 8192 if ctx.quick else 131072
     return [
         EnumPart("matrix", _matrix_count, _matrix_item, run_case, exhaustive=False),
-        HypPart("random", G.case_strategy(_protected(), max_len), run_case, {"quick": 480, "thorough": 20000}),
+        HypPart("random", G.case_strategy(_protected(True), max_len), run_case, {"quick": 480, "thorough": 20000}),
     ]
 
 
